@@ -27,12 +27,31 @@ type Facts struct {
 	Bytes  map[string][]int64  `json:"bytes"`  // byte/number lists
 	Tables map[string][][2]any `json:"tables"` // (code, name) tables
 	Bools  map[string]bool     `json:"bools"`
+	Strs   map[string][]string `json:"strs"`    // name lists
 	Miss   []string            `json:"missing"` // anchors not found
+	// C03 panic-site inventory (panicsites.go): JSON only, steers oracle c03
+	PanicSites       []PanicSite    `json:"panicSites"`
+	PanicSiteCounts  map[string]int `json:"panicSiteCounts"`
+	PanicRootsMissed []string       `json:"panicRootsMissing,omitempty"`
+	PanicSitesError  string         `json:"panicSitesError,omitempty"`
+	V4ValTypes       []string       `json:"v4valTypes,omitempty"` // DHCPv4 value types with a FromBytes method
+	MissT  map[string]string   `json:"missing_types,omitempty"` // Lean type of a missing fact when not Nat
+	Prov   *provenanceOut      `json:"provenance,omitempty"`
+	Read   *ReadFacts          `json:"readOnly,omitempty"` // C20 effect table with evidence (effects.go)
 }
 
-var facts = Facts{Nat: map[string]int64{}, Bytes: map[string][]int64{}, Tables: map[string][][2]any{}, Bools: map[string]bool{}}
+var facts = Facts{Nat: map[string]int64{}, Bytes: map[string][]int64{}, Tables: map[string][][2]any{}, Bools: map[string]bool{}, Strs: map[string][]string{}, MissT: map[string]string{}}
 
 func miss(name string) { facts.Miss = append(facts.Miss, name) }
+
+// missT records a missing anchor whose fact has Lean type `Option <typ>`.
+func missT(name, typ string) {
+	facts.Miss = append(facts.Miss, name)
+	facts.MissT[name] = typ
+}
+
+// extraExtractors are registered by init functions of the per-family files.
+var extraExtractors []func(pkgs map[string]*Pkg)
 
 type Pkg struct {
 	*packages.Package
@@ -138,6 +157,35 @@ func (p *Pkg) factCmp(name, fn, lhs string) {
 	facts.Nat[name+"_op"] = opCodes[op]
 }
 
+// factCmpOp is factCmp restricted to comparisons with the given operator
+// (for functions that compare the same expression more than once).
+func (p *Pkg) factCmpOp(name, fn, lhs, wantOp string) {
+	fd := p.funcDecl(fn)
+	if fd == nil {
+		miss(name)
+		return
+	}
+	found := false
+	ast.Inspect(fd, func(n ast.Node) bool {
+		if found {
+			return false
+		}
+		be, ok := n.(*ast.BinaryExpr)
+		if !ok || be.Op.String() != wantOp || types.ExprString(be.X) != lhs {
+			return true
+		}
+		if v, ok := p.constVal(be.Y); ok {
+			facts.Nat[name] = v
+			facts.Nat[name+"_op"] = opCodes[wantOp]
+			found = true
+		}
+		return true
+	})
+	if !found {
+		miss(name)
+	}
+}
+
 func (p *Pkg) factConst(name, ident string) {
 	if v, ok := p.scopeConst(ident); ok {
 		facts.Nat[name] = v
@@ -219,9 +267,12 @@ func (p *Pkg) factVarBytes(name, ident string) {
 	miss(name)
 }
 
+var loadedInitial []*packages.Package
+var loadedFset *token.FileSet
+
 func load(dir string, pats ...string) map[string]*Pkg {
 	cfg := &packages.Config{
-		Mode: packages.NeedName | packages.NeedFiles | packages.NeedSyntax | packages.NeedTypes | packages.NeedTypesInfo | packages.NeedImports | packages.NeedDeps,
+		Mode: packages.NeedName | packages.NeedFiles | packages.NeedSyntax | packages.NeedTypes | packages.NeedTypesInfo | packages.NeedImports | packages.NeedDeps | packages.NeedTypesSizes,
 		Dir:  dir,
 		Env:  append(os.Environ(), "GOFLAGS=-mod=mod", "GOPROXY=off", "GOSUMDB=off", "GOTOOLCHAIN=local"),
 	}
@@ -230,7 +281,12 @@ func load(dir string, pats ...string) map[string]*Pkg {
 		fmt.Fprintln(os.Stderr, "load:", err)
 		os.Exit(2)
 	}
+	loadedInitial = pkgs
+	if len(pkgs) > 0 {
+		loadedFset = pkgs[0].Fset
+	}
 	out := map[string]*Pkg{}
+	loadedPkgs = pkgs
 	for _, p := range pkgs {
 		if len(p.Errors) > 0 {
 			fmt.Fprintln(os.Stderr, "package errors:", p.PkgPath, p.Errors)
@@ -243,9 +299,12 @@ func load(dir string, pats ...string) map[string]*Pkg {
 
 const mod = "github.com/insomniacslk/dhcp"
 
+// loadedPkgs: the initial packages as loaded (effects.go builds go/ssa from them).
+var loadedPkgs []*packages.Package
+
 func main() {
 	repo := "/repo"
-	outLean, outJSON := "", ""
+	outLean, outJSON, panicBaseline := "", "", ""
 	for i := 1; i < len(os.Args); i++ {
 		switch os.Args[i] {
 		case "-repo":
@@ -257,11 +316,30 @@ func main() {
 		case "-json":
 			i++
 			outJSON = os.Args[i]
+		case "-panicbaseline":
+			i++
+			panicBaseline = os.Args[i]
 		}
 	}
-	pkgs := load(repo, "./dhcpv4", "./dhcpv6", "./rfc1035label", "./iana", "./dhcpv4/nclient4", "./dhcpv6/nclient6", "./dhcpv4/server4", "./dhcpv6/server6")
+	pkgs := load(repo, "./dhcpv4", "./dhcpv6", "./rfc1035label", "./iana", "./dhcpv4/nclient4", "./dhcpv6/nclient6", "./dhcpv4/server4", "./dhcpv6/server6", uioPath)
 	extractV4(pkgs[mod+"/dhcpv4"])
 	extractMore(pkgs)
+	if outJSON != "" || panicBaseline != "" {
+		sites, counts, err := extractPanicSites(repo, panicBaseline)
+		if err != nil {
+			// the inventory only steers a search: its failure is recorded, not fatal
+			facts.PanicSitesError = err.Error()
+		}
+		facts.PanicSites, facts.PanicSiteCounts = sites, counts
+	}
+	for _, f := range extraExtractors {
+		f(pkgs)
+	}
+	extractProvenance(loadedInitial, loadedFset)
+	facts.Prov = provOut
+	extractEffects(loadedPkgs)
+	facts.Read = readFacts
+	extractCost(pkgs)
 	extractClient(pkgs)
 
 	js, _ := json.MarshalIndent(facts, "", " ")
@@ -340,13 +418,57 @@ func renderLean() string {
 	for _, k := range keys {
 		fmt.Fprintf(&b, "def %s : Option Bool := some %v\n", k, facts.Bools[k])
 	}
+	keys = keys[:0]
+	for k := range facts.Strs {
+		keys = append(keys, k)
+	}
+	sort.Strings(keys)
+	for _, k := range keys {
+		parts := make([]string, len(facts.Strs[k]))
+		for i, v := range facts.Strs[k] {
+			parts[i] = fmt.Sprintf("%q", v)
+		}
+		fmt.Fprintf(&b, "def %s : Option (List String) := some [%s]\n", k, strings.Join(parts, ", "))
+	}
+	keys = keys[:0]
+	for k := range strBoolTables {
+		keys = append(keys, k)
+	}
+	sort.Strings(keys)
+	for _, k := range keys {
+		parts := make([]string, len(strBoolTables[k]))
+		for i, e := range strBoolTables[k] {
+			parts[i] = fmt.Sprintf("(%q, %v)", e[0], e[1])
+		}
+		fmt.Fprintf(&b, "def %s : Option (List (String × Bool)) := some [\n  %s]\n", k, strings.Join(parts, ",\n  "))
+	}
+	keys = keys[:0]
+	for k := range strLists {
+		keys = append(keys, k)
+	}
+	sort.Strings(keys)
+	for _, k := range keys {
+		parts := make([]string, len(strLists[k]))
+		for i, e := range strLists[k] {
+			parts[i] = fmt.Sprintf("%q", e)
+		}
+		fmt.Fprintf(&b, "def %s : Option (List String) := some [%s]\n", k, strings.Join(parts, ", "))
+	}
+	sort.Strings(missStrBool)
+	for _, k := range missStrBool {
+		fmt.Fprintf(&b, "def %s : Option (List (String × Bool)) := none -- ANALYSIS FAILED\n", k)
+	}
 	sort.Strings(facts.Miss)
 	for _, k := range facts.Miss {
 		// An anchor the extractor could not find: the obligation that uses it
 		// fails to check (it is `none`), which is a broken tie, not silence.
 		typ := "Nat"
+		if t, ok := facts.MissT[k]; ok {
+			typ = t
+		}
 		fmt.Fprintf(&b, "def %s : Option %s := none -- ANCHOR NOT FOUND\n", k, typ)
 	}
+	renderReadEffects(&b)
 	b.WriteString("\nend Dhcp.Gen\n")
 	return b.String()
 }
